@@ -318,6 +318,25 @@ Section Monitors2.
         end
     end.
 
+  (* C02 (qualified no-cache) — a response given out without a successful validation in this exchange (a hit, a stale
+     answer under stale-while-revalidate or max-stale, a stale-if-error answer) carries none of the fields the stored
+     response's no-cache="..." names; the cache's own Age and status fields, written afterwards, are not the origin's *)
+  Definition spec_qualified_names (cc : directives) : list bytes :=
+    match sd_arg (bs "no-cache") cc with
+    | Some a => map canonical_key
+                  (filter (fun x => negb (beq x []))
+                     (map (trim_with (fun c => (c =? 32) || (c =? 9))) (split_on 44 a)))
+    | None => []
+    end.
+  Definition mon_C02q : verdict :=
+    match how_, resp_of o, stored_ with
+    | FromStore, Some r, Some s =>
+        let own := [bs "Age"; status_header; from_cache_header] in
+        if existsb (fun n => negb (in_names n own) && amem n (p_hdr r)) (spec_qualified_names (spec_cc (sv_hdr s)))
+        then VBad 40 else VOk
+    | _, _, _ => VNa
+    end.
+
   Definition mon_C05 : verdict :=
     let hop_ok := stored_hop_free (x_events o ++ x_bg_events o) in
     if negb hop_ok then VBad 5
@@ -905,7 +924,7 @@ Fixpoint monitor_all_from (T : Z) (script : list (Z * origin_reply * origin_repl
   | (q, o) :: r =>
       let prefix := all_events past in
       (classify script o,
-       [(bs "C01", vand (mon_C01 script prefix q o) (age_inputs script past o)); (bs "C02", vand (mon_C02 script prefix q o) (age_inputs script past o));
+       [(bs "C01", vand (mon_C01 script prefix q o) (age_inputs script past o)); (bs "C02", vand (vand (mon_C02 script prefix q o) (age_inputs script past o)) (mon_C02q script past o));
         (bs "C03", mon_C03 script past q o); (bs "C04", mon_C04 script past q o);
         (bs "C05", mon_C05 script past o); (bs "C06", mon_C06 script q o);
         (bs "C07", mon_C07 script past q o); (bs "C08", mon_C08 script past q o);
